@@ -55,6 +55,14 @@ HISTORIES = {
     "expunge_lowest_unseen": (["@start", app("inbox", 1), app("inbox", 2), app("inbox", 3), app("inbox", 4), "SELECT inbox",
                                "STORE 1:2 +FLAGS (\\Deleted)"],
                               ["EXPUNGE", "NOOP", "STORE 1 +FLAGS (kw1)"]),
+    # a STORE over several messages of which the LAST already has the flag; then something that touches another mailbox only
+    "store_last_unchanged": (["@start", "CREATE work", app("inbox", 1), app("inbox", 2), app("inbox", 3), "SELECT inbox",
+                              "STORE 3 +FLAGS (\\Flagged kw1)"],
+                             ["STORE 1:3 +FLAGS (\\Flagged)", "UID STORE 1:3 +FLAGS (kw1)", app("work", 9), "STORE 2:3 -FLAGS (kw1)",
+                              app("work", 10)]),
+    # RENAME INBOX moves real messages
+    "rename_inbox": (["@start", app("inbox", 1), app("inbox", 2, "(\\Seen)"), app("inbox", 3, "(kw1)")],
+                     ["RENAME inbox moved", app("inbox", 4), "NOOP"]),
     "namespace": (["@start", "CREATE aa/bb", app("aa/bb", 1), app("aa", 2), "SUBSCRIBE aa"],
                   ["RENAME aa/bb cc", "DELETE aa", "CREATE aa", "RENAME inbox old", app("cc", 3), "DELETE cc"]),
 }
@@ -234,7 +242,7 @@ def recover_and_check(root, ledger_path, deliver_after_crash):
     try:
         # what IMAPUserServer.run() does before it accepts clients
         w.run(w.server.find_all_folders())
-        w.server.initial_folder_scan = True
+        w.server.initial_folder_scan = True      # as user_server_management_task does: the first scan looks at every folder
         w.run(w.server.check_all_folders())
         w.server.initial_folder_scan = False
         w.session("R")
@@ -292,9 +300,20 @@ def recover_and_check(root, ledger_path, deliver_after_crash):
         if now is None:
             if not renaming:
                 problems.append(f"mailbox {box} with {len(st['msgs'])} acknowledged messages is gone after the restart")
+            elif (inflight or "").startswith("RENAME"):
+                anywhere = {cid for b2 in after.values() for _, cid, _ in b2["msgs"]}
+                lost = [cid for _, cid, _ in st["msgs"] if cid not in anywhere]
+                if lost:
+                    problems.append(f"{box}: acknowledged messages (contents {lost}) are in no mailbox after the restart "
+                                    f"(killed inside a RENAME)")
             continue
         have = {cid for _, cid, _ in now["msgs"]}
+        anywhere = {cid for b2 in after.values() for _, cid, _ in b2["msgs"]}
         for uid, cid, fl in st["msgs"]:
+            if (inflight or "").startswith("RENAME") and cid not in anywhere:
+                # a RENAME that was killed half way may leave a message in the old mailbox, the new one or both - not nowhere
+                problems.append(f"{box}: acknowledged message (content {cid}, UID {uid}) is in no mailbox after the restart "
+                                f"(killed inside {inflight.split()[0]} {inflight.split()[1]})")
             if cid not in have and not removing and not renaming:
                 problems.append(f"{box}: acknowledged message (content {cid}, UID {uid}) is missing after the restart")
         if now["vv"] == st["vv"]:
@@ -366,7 +385,7 @@ def run(ctx):
                             "the server was down; non-trivial = the crash fell inside a command that had already performed an effect")
     ok = ctx.prove("Properties/C11.v")
     hists = list(HISTORIES) if ctx.thorough else ["first_start", "append_store_expunge", "expunge_tail_then_delivery", "namespace", "copy_move", "pack",
-                                                   "expunge_lowest_unseen"]
+                                                   "expunge_lowest_unseen", "store_last_unchanged", "rename_inbox"]
     # dry runs: how many effects does each history have?
     with mp.get_context("fork").Pool(min(core.NPROC, len(hists))) as pool:
         dry = pool.map(crash_case, [(h, 10 ** 9, False) for h in hists], chunksize=1)
